@@ -67,8 +67,9 @@ def merge(pid, entry, tier, seed, partials, wall, nviol, nreplayed, inconclusive
 
 
 def write(pid, ev):
-    os.makedirs(os.path.join(ROOT, "evidence"), exist_ok=True)
-    path = os.path.join(ROOT, "evidence", pid + ".json")
+    edir = os.path.join(os.environ["VERIF_BUILD"], "evidence") if os.environ.get("VERIF_BUILD") else os.path.join(ROOT, "evidence")
+    os.makedirs(edir, exist_ok=True)
+    path = os.path.join(edir, pid + ".json")
     try:
         import jsonschema
         with open(SCHEMA) as f:
